@@ -42,14 +42,17 @@ static int in_pass;                      /* an evaluation pass may be running (i
 /* the module stops (stop, pill, refused start, deregistration): everything the statement says is dropped */
 static void mon_stop_effects(int s) {
     mod_t *m = &MD[s];
+    if (m->st == S_PAUSED) m->life |= 128;        /* how the reset was reached is part of the dedup key too: a reset path may leave residue */
+    if (m->nst) m->life |= 256;
+    if (m->nhs) m->life |= 512;
     for (int i = 0; i < m->nmb; i++) if (!m->mb[i].optional && m->mb[i].kind == 0) MSG[m->mb[i].msg].owed--;
     m->nmb = 0;
     memset(m->sub, 0, sizeof m->sub);
     for (int i = 0; i < MAXSRC; i++) {
-        if (m->src[i].present && m->src[i].kind == K_FD && (m->src[i].flags & 1)) { /* AUTOCLOSE: the user fd is closed by the library now */ UFD[m->src[i].key].open_rd = 0; }
+        if (m->src[i].present && m->src[i].kind == K_FD && (m->src[i].flags & 5) == 1) { /* AUTOCLOSE (of the user's own descriptor, not of a DUP): closed by the library now */ UFD[m->src[i].key].open_rd = 0; }
         m->src[i].present = 0;
     }
-    m->ever_batched = 0; m->batch_due = 0; m->ba_unsure = 0; m->nst = 0; m->nhs = 0; m->batch_size = 0; m->batch_tmo = 0; m->batch_fired = 0; m->tb_rate = 0; m->tb_burst = 0;
+    m->ever_batched = 0; m->batch_due = 0; m->ba_unsure = 0; m->nst = 0; m->nhs = 0; m->batch_size = 0; m->batch_tmo = 0; m->batch_fired = 0; m->tb_rate = 0; m->tb_burst = 0; m->tb_prev = 0;
     m->st = S_STOPPED; mt_del_all(s);
 }
 
@@ -262,7 +265,7 @@ static void handle_events(int s, const m_queue_t *evts, int handler_id) {
                 if (UFD[k].bytes <= 0) vfail("EV.ghost", "EV.ghost|fd", "%s received a descriptor event although nothing is readable", m->name);
                 char c; if (__real_read(e->fd_evt->fd, &c, 1) != 1) vfail("EV.ghost", "EV.ghost|fd-read", "%s: descriptor reported readable but read failed", m->name);
                 UFD[k].bytes--; trig = 1; cur_evrec[i] = new_evrec(e, 1, -1, k); obs(6000 + k);
-                if (m->src[si].flags & 2) { m->src[si].present = 0; if (m->src[si].flags & 1) UFD[k].open_rd = 0; }      /* one-shot */
+                if (m->src[si].flags & 2) { m->src[si].present = 0; if ((m->src[si].flags & 5) == 1) UFD[k].open_rd = 0; }      /* one-shot */
                 break; }
             case M_SRC_TYPE_TMR: {
                 int si = -1;
